@@ -385,3 +385,19 @@ Lemma kernel_wiring :
   (map fst k_factories = ["mol"; "vr"; "yang"; "gw"]%string /\ forallb factory_row_ok k_factories = true) /\
   k_reductions = [("max_inbreeding", "diagonal.max"); ("max", "max"); ("min", "min"); ("mean", "mean")]%string.
 Proof. split; [exact k_labels_ok|]. split; [exact k_factories_ok | exact k_reductions_model]. Qed.
+
+(** * label arrays: copied or shared?  (read off the generated wiring table)
+    The molecular and the weighted estimator hand *copies* of the source's label arrays to the new object; VanRaden and Yang hand
+    the arrays themselves, so matrix and source share them (known finding C13-vr-yang-share-label-arrays). *)
+Local Open Scope string_scope.
+Definition row_copies (row : list (string * string)) : bool :=
+  match row with
+  | [_; (_, t); (_, g)] => String.eqb t "copy gmat.taxa" && String.eqb g "copy gmat.taxa_grp"
+  | _ => false
+  end.
+Lemma labels_copied_refuted : map fst (filter (fun e => negb (row_copies (snd e))) k_labels) = ["vr"; "yang"].
+Proof. reflexivity. Qed.
+Lemma labels_copied_partial :
+  forallb (fun e => if String.eqb (fst e) "mol" || String.eqb (fst e) "gw" then row_copies (snd e) else true) k_labels = true.
+Proof. reflexivity. Qed.
+Local Close Scope string_scope.
